@@ -271,7 +271,7 @@ func TestC19(t *testing.T) {
 		Level: "exploration",
 		Rule: "rapid draws 0-10 objects (id plus nullable string/int/float/bool/datetime fields), mirrors them into a bolt scan store with the same symbol names and draws 3-8 queries = optional predicate over non-set symbols (depth<=2, incl. = null / != null) x 0-7 sort keys x skip/limit boundary classes. " +
 			"ObjectStore.QueryEntities must return the same ids in the same order and the same count as Store.QueryIds (both error or neither). The object store is iterated in reverse insertion order. " +
-			"Also generated: the zero time, negative limits below -1, pairs of queries on one store instance differing only in the letter case of a string literal. " +
+			"Also generated: the zero time, negative limits below -1, pairs of queries on one store instance differing only in the letter case of a string literal. Also: negative zero; an eighth of the cases run their queries once more from four goroutines on the one store instance. " +
 			"Non-trivial case: a non-empty result under a non-default sort or paging, or a null test. Distinct by hash of the case JSON; sub_evaluations counts queries.",
 		Assumptions: []string{"literal differential: agreement with the documented semantics is C01/C02's job"},
 		Gen:         genC19,
